@@ -42,16 +42,19 @@ def KeepsStates (i : Inst) (pre post : State) : Prop := ∀ r ∈ pre.fcs, Keeps
 def Quiet (i : Inst) (ops : List Op) : Prop := ∀ op ∈ ops, op.isBy i = false
 
 /-- **Reclaim, 1 s pass.** Every instance that is dead at `now` loses its heartbeat entry, every in-flight state
-    counted for it (all stores), and every labelled condition of it in the shards led. -/
+    counted for it (all stores), and every labelled condition of it in the shards led — except a condition whose
+    deletion the API refused in this pass (API-backed store; it is kept for the next pass). -/
 def ReclaimTimeout (shardOf : Ups → Nat) (now : Nat) (pre post : State) : Prop :=
   ∀ q ∈ pre.hb, DeadAt now pre q.1 →
     NoHb q.1 post ∧ NoState q.1 post ∧
-    (q.1 ≠ [] → ∀ r ∈ post.conds, r.2.inst = q.1 → r.2.label = some q.1 → isLeader post (shardOf r.2.upstream) = false)
+    (q.1 ≠ [] → ∀ r ∈ post.conds, r.2.inst = q.1 → r.2.label = some q.1 →
+      isLeader post (shardOf r.2.upstream) = false ∨ post.failing.contains r.2.name = true)
 
 /-- **Reclaim, 30 s pass.** Afterwards every condition left in a led shard is instance-less or belongs to an instance
     of the heartbeat table, and no in-flight state is left for the unknown instances found. -/
 def ReclaimUnknown (shardOf : Ups → Nat) (pre post : State) : Prop :=
-  (∀ r ∈ post.conds, isLeader post (shardOf r.2.upstream) = true → r.2.inst = [] ∨ hbHas post r.2.inst = true) ∧
+  (∀ r ∈ post.conds, isLeader post (shardOf r.2.upstream) = true →
+    r.2.inst = [] ∨ hbHas post r.2.inst = true ∨ post.failing.contains r.2.name = true) ∧
   (∀ r ∈ pre.conds, r.2.inst ≠ [] → hbHas pre r.2.inst = false → NoState r.2.inst post)
 
 /-- **Live instances are left alone, 1 s pass**: an instance that is live at `now` keeps its heartbeat entry,
@@ -167,6 +170,7 @@ def judgeStep (shardOf : Ups → Nat) (pre : State) (op : Op) (ok : Bool) (post 
       (if ok then chk "c18.recorded-sum-not-recomputed" (decide (SumRecorded shardOf u post)) else []) ++
       chk "c18.other-instance-removed-by-report" (decide (OthersKept (some u) j pre post))
   | .acquire _ j _ _ => chk "c18.other-instance-removed-by-acquire" (decide (OthersKept none j pre post))
+  | .burst _ j _ _ => chk "c18.other-instance-removed-by-acquire" (decide (OthersKept none j pre post))
   | .heartbeat i t => chk "c18.heartbeat-not-recorded" (decide (HeartbeatRecorded i t pre post))
   | .handle u => chk "c18.upstream-event-removes-conditions" (decide (EventKeeps shardOf u pre post))
   | .leaderCheck => chk "c18.leaderCheck-empties-led-store" (decide (LedStoresKept pre post))
